@@ -432,7 +432,7 @@ loop:
 		}
 	}
 	rc.done = true
-	rc.doneAt = s.Now()
+	rc.doneAt = s.Now() - s.Jumped()
 	s.Eventf("client %s done got=%d owed=%d", name, len(rc.got), len(rc.obl))
 }
 
@@ -580,7 +580,7 @@ func execC08(x *X, scAny any) {
 			}
 		}
 		if rc.sc.Canary && rc.doneAt > time.Second {
-			x.Reportf("C08.canary-delayed", "canary", "well-behaved client %d needed %v of simulated time although its own handlers are instant", rc.idx, rc.doneAt)
+			x.Reportf("C08.canary-delayed", "canary", "well-behaved client %d needed %v of simulated time (clock jumps excluded) although its own handlers are instant", rc.idx, rc.doneAt)
 		}
 	}
 	// nothing of ended connections is left behind
@@ -673,8 +673,10 @@ func init() {
 	register(&Prop{
 		ID: "C08", Engine: "server",
 		Generate: genC08, Decode: decodeC08, Execute: execC08,
-		Config: func(any) simrt.Config { return simrt.Config{MaxSteps: 200000, IdleProbe: 4 * time.Second} },
-		Runs:   clientRuns(40000, 4000000),
+		Config: func(any) simrt.Config {
+			return simrt.Config{MaxSteps: 200000, IdleProbe: 4 * time.Second, ClockJumpPM: 4}
+		},
+		Runs: clientRuns(40000, 4000000),
 		Floors: []Floor{
 			{Name: "single-server-fault", Count: func(t string) int { return len(c08FaultFloor(t)) }, Scenario: func(t string, i int) any { return c08FaultFloor(t)[i] }},
 			{Name: "single-preemption", Sweep: true, Count: func(t string) int { return len(c08SweepFloor(t)) }, Scenario: func(t string, i int) any { return c08SweepFloor(t)[i] }},
